@@ -42,6 +42,11 @@ func genTable(t *Tape, prefix string, maxRows int, nullable bool) [][]octosql.Va
 			}
 			return intv(x + 1)
 		}
+		if len(rows) > 0 && b.Draw(5) == 0 {
+			// a fully identical copy of an earlier row (tables are multisets)
+			rows = append(rows, rows[b.Draw(len(rows))])
+			continue
+		}
 		rows = append(rows, []octosql.Value{key(), key(), intv(b.Draw(4)), idv(prefix, i)})
 	}
 	return rows
